@@ -63,6 +63,13 @@ Judge(e) ==
               mp == IF HasQs(e) /\ AllRows(e.ress) THEN MeaningProblems(e.qs, e.ress) ELSE {}
           IN IF pr = {} /\ mp = {} THEN TRUE
              ELSE PrintT("MM " \o ToJson([l |-> l, id |-> e.id, what |-> "equiv", problems |-> pr, meaning |-> mp])))
+    [] e.ev = "q" ->
+         (IF e.res.kind = "rows" /\ ResultOK(e.q, db, e.res.rows) THEN TRUE
+          ELSE PrintT("MM " \o ToJson([l |-> l, id |-> e.id, what |-> "result", exp |-> Rows(e.q, <<>>, db)])))
+    [] e.ev = "multi" ->      \* one meaning, several execution paths (plain / prepared / bound parameters)
+         (LET bad == {i \in DOMAIN e.ress : ~(e.ress[i].kind = "rows" /\ ResultOK(e.q, db, e.ress[i].rows))} IN
+          IF bad = {} THEN TRUE
+          ELSE PrintT("MM " \o ToJson([l |-> l, id |-> e.id, what |-> "variant", bad |-> bad, exp |-> Rows(e.q, <<>>, db)])))
     [] OTHER -> TRUE
 
 Next ==
